@@ -31,8 +31,13 @@
     list.__eq__ / list.__ne__  CPython `list_richcompare`: lengths, then the first pair of items with
                                `not (x == y)`; only the items' `==` is ever called
 
-  Not modelled: parts that are neither a ZFilter, a number nor a filter list (coefficient lists /
-  dicts as parts, arbitrary callables), Stream coefficients, `<`/`<=`/`>`/`>=` (they return a filter
+    FilterList.is_linear       all(isinstance(filt, LinearFilter) or (hasattr(filt, "is_linear") and filt.is_linear())
+                                   for filt in self.callables)
+    CascadeFilter.numpoly      ... except AttributeError: raise AttributeError("Non-linear filter")
+    ParallelFilter.numpoly     if not self.is_linear(): raise AttributeError("Non-linear filter")
+
+  Not modelled: parts that are neither a ZFilter, a number, a sample-wise callable nor a filter list
+  (coefficient lists / dicts as parts, callables with memory), Stream coefficients, `<`/`<=`/`>`/`>=` (they return a filter
   list holding one bool), `plot`, `poles` / `zeros`.
 -/
 import ALV.Model.C05
@@ -54,6 +59,9 @@ inductive FL (α : Type) where
   | leaf (f : ZF α)
   /-- a plain number (not callable: `callables` casts it with `LinearFilter(c)`) -/
   | num (c : α)
+  /-- any other callable (here: a function applied sample by sample): a non-linear part; `id` is its
+  identity — functions compare and hash by identity, what it computes is `env id` -/
+  | other (id : Nat)
   /-- a `CascadeFilter` / `ParallelFilter` (or user subclass) holding these parts -/
   | node (k : Kind) (ps : FLs α)
 /-- the parts, in list order -/
@@ -184,32 +192,45 @@ variable [Add α] [Mul α] [Sub α] [Neg α] [Div α] [OfNat α 0] [OfNat α 1] 
 def castNum (c : α) : Except PyErr (ZF α) := ofScalar c
 
 mutual
-/-- `obj(seq, zero=0)` -/
-def FL.call : FL α → List α → Except PyErr (List α)
+/-- `obj(seq, zero=0)`; `env i` is what the callable with identity `i` does to a sample -/
+def FL.call (env : Nat → α → α) : FL α → List α → Except PyErr (List α)
   | .leaf f, xs => C05.call f xs
   | .num c, xs => do
       let f ← castNum c
       C05.call f xs
-  | .node k ps, xs => if k.par then ps.parCall xs none else ps.casCall xs
+  | .other i, xs => .ok (xs.map (env i))
+  | .node k ps, xs => if k.par then ps.parCall env xs none else ps.casCall env xs
 /-- `reduce(lambda data, filt: filt(data), self.callables, seq)` -/
-def FLs.casCall : FLs α → List α → Except PyErr (List α)
+def FLs.casCall (env : Nat → α → α) : FLs α → List α → Except PyErr (List α)
   | .nil, xs => .ok xs
   | .cons p t, xs => do
-      let y ← p.call xs
-      t.casCall y
+      let y ← p.call env xs
+      t.casCall env y
 /-- `reduce(operator.add, (filt(arg0) for filt in self.callables))`, the zero value per input
 without parts; `acc` = the running sum (`none` before the first part) -/
-def FLs.parCall : FLs α → List α → Option (List α) → Except PyErr (List α)
+def FLs.parCall (env : Nat → α → α) : FLs α → List α → Option (List α) → Except PyErr (List α)
   | .nil, xs, none => .ok (xs.map fun _ => 0)
   | .nil, _, some acc => .ok acc
   | .cons p t, xs, acc => do
-      let y ← p.call xs
-      t.parCall xs (some (match acc with
+      let y ← p.call env xs
+      t.parCall env xs (some (match acc with
         | none => y
         | some a => addSig a y))
 end
 
 /-! ### `numpoly` / `denpoly` -/
+
+mutual
+/-- `is_linear()` of a part: a LinearFilter (numbers are cast to one), or a filter list of linear parts -/
+def FL.linear : FL α → Bool
+  | .leaf _ => true
+  | .num _ => true
+  | .other _ => false
+  | .node _ ps => ps.linear
+def FLs.linear : FLs α → Bool
+  | .nil => true
+  | .cons p t => p.linear && t.linear
+end
 
 mutual
 /-- `(obj.numpoly, obj.denpoly)` with `ParallelFilter` repaired (D22): the parts are added as filters,
@@ -220,8 +241,10 @@ def FL.polys : FL α → Except PyErr (MPoly α × MPoly α)
   | .num c => do
       let f ← castNum c
       pure (f.num, f.den)
+  | .other _ => .error .attribute
   | .node k ps =>
       if k.par then do
+        if !ps.linear then .error .attribute
         match ← ps.sumF none with
         | none => .error .type
         | some h => pure (h.num, h.den)
@@ -284,12 +307,15 @@ def FL.polysC : Nat → FL α → Except PyErr (Option (MPoly α × MPoly α))
   | _ + 1, .num c => do
       let f ← castNum c
       pure (some (f.num, f.den))
+  | _ + 1, .other _ => .error .attribute
   | fuel + 1, .node k ps =>
       if k.par then do
+        if !ps.linear then .error .attribute
         match ← reduceAdd ps with
         | none => .error .type
         | some (.leaf h) => pure (some (h.num, h.den))
         | some (.num _) => .error .attribute
+        | some (.other _) => .error .attribute
         | some r => FL.polysC fuel r
       else do
         let r ← ps.toList.foldlM (fun (acc : Option (Option (MPoly α × MPoly α))) p => do
@@ -312,6 +338,7 @@ mutual
 def FL.eq : FL α → FL α → Bool
   | .leaf f, .leaf g => C05.eq f g
   | .num c, .num d => decide (c = d)
+  | .other i, .other j => decide (i = j)
   | .node k a, .node k' b => decide (k = k') && a.eq b
   | _, _ => false
 /-- `list.__eq__`: same length and item by item `==` -/
@@ -334,6 +361,7 @@ different sorts end in one of these with the answer True -/
 def FL.ne : FL α → FL α → Bool
   | .leaf f, .leaf g => neFixed f g
   | .num c, .num d => decide (c ≠ d)
+  | .other i, .other j => decide (i ≠ j)
   | .node k a, .node k' b => decide (k ≠ k') || a.listNe b
   | _, _ => true
 
@@ -356,12 +384,15 @@ inductive HKey (α : Type) where
   | powers (l : List Int)
   /-- a number hashes by value (CPython: equal numbers hash equally — trusted) -/
   | number (c : α)
+  /-- a function hashes by identity -/
+  | ident (id : Nat)
   deriving DecidableEq
 
 /-- `hash(obj)`: filter lists (and plain lists) are unhashable -/
 def FL.hash : FL α → Except PyErr (HKey α)
   | .leaf f => .ok (.powers (hashKey f))
   | .num c => .ok (.number c)
+  | .other i => .ok (.ident i)
   | .node _ _ => .error .type
 
 end Arith
